@@ -1,9 +1,99 @@
 (* Proofs about the image-view model (Fill.v) against the OCI overlay spec (Overlay.v). *)
-From Coq Require Import List NArith ZArith Bool String Lia.
+From Coq Require Import List NArith ZArith Bool String Lia PeanoNat.
 From Scalibr Require Import Lib.SortSearch Image.PathTree Image.PathTreeProofs Image.Fill Image.Overlay
   Image.ImageCases Image.ViewEq Image.Witnesses.
 Import ListNotations.
 Open Scope Z_scope.
+
+(* ------------------------------------------------------------------ structure of the fill (all images) *)
+
+(* inWhiteoutDir: true iff some ancestor carries a whiteout or a non-directory *)
+Lemma in_whiteout_go_spec t ancs :
+  in_whiteout_go t ancs = true <->
+  exists a n, In a ancs /\ get_segs a t = Some n /\ (fn_wh n = true \/ fn_is_dir n = false).
+Proof.
+  induction ancs as [|a r IH]; simpl.
+  - split; [discriminate|]. intros (a & n & [] & _).
+  - destruct (get_segs a t) as [n|] eqn:G.
+    + destruct (fn_wh n || negb (fn_is_dir n)) eqn:B.
+      * split; [intros _|reflexivity]. exists a, n. split; [left; reflexivity|]. split; [exact G|].
+        apply orb_true_iff in B as [B|B]; [left; exact B|right]. apply negb_true_iff in B. exact B.
+      * rewrite IH. apply orb_false_iff in B as [B1 B2]. apply negb_false_iff in B2.
+        split.
+        -- intros (a' & n' & HI & G' & HW). exists a', n'. split; [right; exact HI|auto].
+        -- intros (a' & n' & [E|HI] & G' & HW).
+           ++ subst a'. rewrite G in G'. inversion G'; subst n'. destruct HW; congruence.
+           ++ exists a', n'. auto.
+    + rewrite IH. split.
+      * intros (a' & n' & HI & G' & HW). exists a', n'. split; [right; exact HI|auto].
+      * intros (a' & n' & [E|HI] & G' & HW); [subst a'; congruence|]. exists a', n'. auto.
+Qed.
+
+(* fillChainLayersWithFileNode touches the chain layers from index i on, each independently *)
+Lemma fill_from_nth i vsegs n cs k :
+  nth k (fill_from i vsegs n cs) empty_trie =
+  if Nat.leb i k then (if Nat.ltb k (List.length cs) then fill_one vsegs n (nth k cs empty_trie) else empty_trie)
+  else nth k cs empty_trie.
+Proof.
+  unfold fill_from.
+  destruct (Nat.leb i k) eqn:E.
+  - apply Nat.leb_le in E.
+    destruct (Nat.ltb k (List.length cs)) eqn:L.
+    + apply Nat.ltb_lt in L.
+      rewrite app_nth2 by (rewrite firstn_length; lia).
+      rewrite firstn_length, Nat.min_l by lia.
+      assert (X : forall d, nth (k - i) (map (fill_one vsegs n) (skipn i cs)) d =
+                            nth (k - i) (map (fill_one vsegs n) (skipn i cs)) (fill_one vsegs n empty_trie))
+        by (intro d; apply nth_indep; rewrite map_length, skipn_length; lia).
+      rewrite X, map_nth. f_equal.
+      rewrite <- (firstn_skipn i cs) at 2. rewrite app_nth2 by (rewrite firstn_length; lia).
+      rewrite firstn_length, Nat.min_l by lia. reflexivity.
+    + apply Nat.ltb_ge in L. apply nth_overflow.
+      rewrite app_length, firstn_length, map_length, skipn_length. lia.
+  - apply Nat.leb_gt in E.
+    destruct (Nat.ltb k (List.length cs)) eqn:L.
+    + apply Nat.ltb_lt in L. rewrite app_nth1 by (rewrite firstn_length; lia).
+      rewrite <- (firstn_skipn i cs) at 2. rewrite app_nth1 by (rewrite firstn_length; lia). reflexivity.
+    + apply Nat.ltb_ge in L. rewrite !nth_overflow; auto.
+      rewrite app_length, firstn_length, map_length, skipn_length. lia.
+Qed.
+
+(* fill_one on the map level: nothing happens when the path has a value or is hidden; otherwise the
+   node is inserted (PathTreeProofs.insert_map), creating value-less ancestors *)
+Lemma fill_one_refines vsegs n t sg :
+  path_segs (fn_vpath n) = Some sg -> sg <> [] ->
+  forall q, node_at (fill_one vsegs n t) q =
+    match get_segs sg t with
+    | Some _ => node_at t q
+    | None => if in_whiteout_dir t vsegs then node_at t q else insert_map (node_at t) sg n q
+    end.
+Proof.
+  intros P NE q. unfold fill_one, get. rewrite P.
+  destruct (get_segs sg t) as [x|] eqn:G; [reflexivity|].
+  destruct (in_whiteout_dir t vsegs); [reflexivity|].
+  unfold insert_ignore, insert. rewrite P.
+  pose proof (insert_refines t sg n) as H.
+  destruct (insert_segs sg n t) as [t'| |].
+  - destruct H as (_ & H & _). apply H.
+  - destruct H as (_ & x & H). congruence.
+  - contradiction.
+Qed.
+
+(* whiteouts are never exposed: Stat of a path whose (resolved) node is a whiteout says not-exist,
+   and listings contain no whiteout child *)
+Lemma stat_hides_whiteouts t depth p name mode size :
+  stat t depth p = SOk name mode size ->
+  exists n, lookup_resolved t depth p = LNode n /\ fn_wh n = false.
+Proof.
+  unfold stat. destruct (lookup_resolved t depth p) as [| | |n]; try discriminate.
+  destruct (fn_wh n) eqn:W; [discriminate|]. intros _. exists n. auto.
+Qed.
+
+Lemma list_dir_hides_whiteouts t vp l : list_dir t vp = Some l -> forall n, In n l -> fn_wh n = false.
+Proof.
+  unfold list_dir. destruct (get_children t (normalize_path vp)) as [c|]; [|discriminate].
+  intros E n HI. inversion E; subst. apply filter_In in HI as [_ H]. apply negb_true_iff in H. exact H.
+Qed.
 
 (* ------------------------------------------------------------------ refutations (witnesses, vm_compute) *)
 Ltac witness := eexists; split; [vm_compute; reflexivity | vm_compute; repeat split; try reflexivity; try discriminate; try congruence].
@@ -18,13 +108,19 @@ Definition lost (cfg : config) (im : image) (i : nat) (p : list seg) : Prop :=
 Definition differs (cfg : config) (im : image) (i : nat) (p : list seg) : Prop :=
   exists st a b, load cfg im = Some st /\ spec_lookup cfg im i p = Some a /\ impl_lookup st i p = Some b /\ a <> b.
 
-Lemma deep_whiteout_leaks_lemma : leaks cfg_default w_deep_whiteout 1 (path "a/b/c").
-Proof. witness. Qed.
+(* regression examples for the two repaired defects (fix commits 85791d6b, 1c13035d): the former
+   witnesses now agree with the overlay *)
+Lemma deep_whiteout_hidden_lemma :
+  spec_lookup cfg_default w_deep_whiteout 1 (path "a/b/c") = None /\
+  forallb (fun p => agree_at cfg_default w_deep_whiteout 1 (path p)) ["a"; "a/b"; "a/b/c"]%string = true /\
+  agree_at cfg_default w_deep_whiteout 0 (path "a/b/c") = true.
+Proof. vm_compute. repeat split; reflexivity. Qed.
 
-Lemma dir_replaced_by_file_leaks_lemma :
-  leaks cfg_default w_dir_to_file 1 (path "a/b") /\
-  (exists st, load cfg_default w_dir_to_file = Some st /\ impl_listing st 1 (path "a") = Some [bytes "b"]).
-Proof. split; witness. Qed.
+Lemma dir_replaced_by_file_hidden_lemma :
+  spec_lookup cfg_default w_dir_to_file 1 (path "a/b") = None /\
+  forallb (fun p => agree_at cfg_default w_dir_to_file 1 (path p)) ["a"; "a/b"]%string = true /\
+  (exists st, load cfg_default w_dir_to_file = Some st /\ impl_listing st 1 (path "a") = Some []).
+Proof. split; [vm_compute; reflexivity|]. split; [vm_compute; reflexivity|]. witness. Qed.
 
 Lemma opaque_whiteout_ignored_lemma : leaks cfg_default w_opaque 1 (path "a/b").
 Proof. witness. Qed.
@@ -59,11 +155,13 @@ Lemma requirer_deletes_content_of_earlier_views_lemma :
     impl_content st 0 (path "f") = None.
 Proof. witness. Qed.
 
-Lemma size_limit_boundary_lemma : lost cfg_max4 w_size_boundary 0 (path "f").
-Proof. witness. Qed.
-
-Lemma duplicate_member_first_wins_lemma : differs cfg_default w_duplicate 0 (path "a").
-Proof. do 3 eexists. split; [vm_compute; reflexivity|]. split; [vm_compute; reflexivity|]. split; [vm_compute; reflexivity|]. discriminate. Qed.
+(* a file of exactly MaxFileBytes bytes is exposed by neither side (C10's contract); one byte less is *)
+Lemma size_limit_boundary_agrees_lemma :
+  spec_lookup cfg_max4 w_size_boundary 0 (path "f") = None /\
+  agree_at cfg_max4 w_size_boundary 0 (path "f") = true /\
+  spec_lookup cfg_max4 w_size_boundary 0 (path "g") <> None /\
+  agree_at cfg_max4 w_size_boundary 0 (path "g") = true.
+Proof. vm_compute. repeat split; try reflexivity; discriminate. Qed.
 
 (* two visiting orders of the same tree, two different final views *)
 Lemma prune_marking_order_dependent_lemma :
